@@ -228,6 +228,16 @@ static void gen_robust_envstr(vh_rng_t *r, int target, cfg_bb_t *out, int zero_o
   }
 }
 
+static int rt_popcount_u(unsigned x)
+{
+  int n = 0;
+  while (x) {
+    n += (int)(x & 1);
+    x >>= 1;
+  }
+  return n;
+}
+
 static void prof_robust(vh_rng_t *r, const vh_args_t *a)
 {
   cfg_sys_t       sys;
@@ -305,6 +315,13 @@ static void prof_robust(vh_rng_t *r, const vh_args_t *a)
     junk_bytes += bb.len;
     cfg_sys_set_env(&sys, CE_LOCALDOMAIN, bb.b);
     cfg_bb_free(&bb);
+  }
+  if (bigtries_ok && vh_chance(r, 1, 4)) {
+    /* dedicated sub-workload: retry counts far beyond anything resolv.conf(5) allows */
+    static const char *const big[] = { "attempts:4294967295", "retry:100000", "attempts:65536",
+                                       "retry:2147483648 attempts:1000000" };
+    cfg_sys_set_env(&sys, CE_RES_OPTIONS, PICK(r, big));
+    junk_bytes += 16;
   }
   if (sys.f[CF_ALIASES].state != CFG_ABSENT || vh_chance(r, 1, 10)) {
     cfg_sys_set_env(&sys, CE_HOSTALIASES, cfg_path[CF_ALIASES]);
@@ -538,7 +555,9 @@ static void prof_robust(vh_rng_t *r, const vh_args_t *a)
   /* fingerprint: which sources were junk, how initialisation went, option density */
   cfg_case_fp = vh_fnv_u64(cfg_case_fp, junked);
   cfg_case_fp = vh_fnv_u64(cfg_case_fp, (uint64_t)rc);
-  cfg_case_fp = vh_fnv_u64(cfg_case_fp, (uint64_t)(u.use_null ? 0xffff : u.mask));
+  /* option density class rather than the exact mask: none / NULL / few / many */
+  cfg_case_fp = vh_fnv_u64(cfg_case_fp, (uint64_t)(u.use_null ? 99 : (u.mask == 0 ? 0 : (rt_popcount_u((unsigned)u.mask) <= 4 ? 1 : 2))));
+  cfg_case_fp = vh_fnv_u64(cfg_case_fp, (uint64_t)reinit_done);
   cfg_case_nontrivial = junk_bytes >= 8;
   if (vh_want_sample() && cfg_case_nontrivial) {
     vh_sb_t sb = { 0 };
